@@ -19,7 +19,7 @@ DEFAULT = dict(
     p_diamond=0.0,    # a stored handle of a task that holds a context across a suspension, awaited by 2-3 sibling tasks, each from
                       # inside a context block of its own and after a different number of suspensions (a DAG: the shared task is
                       # started under one awaiter and continued / completed under another)
-    p_sticky=0.0,     # a context whose pause() fault is PERSISTENT: once its pause() has raised, every later pause() call on it
+    p_sticky=0.0,     # a context whose fault is PERSISTENT: once its pause() (or resume()) has raised, every later pause() call on it
                       # (by the scheduler or by the with block's __exit__, e.g. during generator.close()) raises too
     p_vary_bad=0.0,   # params.vary_bad: non-future leaves cycle through 12345, 0, '', False, 0.0, b'', 'abc'      # a yield of a container of stored handles whose very same container object is yielded a second time
 )
@@ -116,7 +116,7 @@ class Gen:
         if self.r.random() < c["p_ctx_fault"]:
             k = self.r.choice([1, 1, 2, 3])
             fault = {self.r.choice(["resume", "pause"]): [k, self.ferr()]}
-            if c["p_sticky"] > 0 and "pause" in fault and self.r.random() < c["p_sticky"]:
+            if c["p_sticky"] > 0 and self.r.random() < c["p_sticky"]:
                 fault["sticky"] = True
         if fault is None and c["p_exit_fault"] > 0 and self.r.random() < c["p_exit_fault"]:
             fault = {"exit": self.ferr()}
